@@ -37,6 +37,9 @@ def engineOn (d : D) (newest : Bytes) : String :=
 def rangeStep (n stride : Nat) : List Nat := (List.range (n / stride + 1)).map (· * stride) |>.filter (· ≤ n)
 
 def step (d : D) (ws : List String) : D × String :=
+  if d.files.isEmpty && (ws.headD "" == "truncall" || ws.headD "" == "flipall" || ws.headD "" == "engtrunc" || ws.headD "" == "engflip") then
+    (d, "noseal")
+  else
   match ws with
   | ["seal"] =>
     let fs := d.log.files
